@@ -191,6 +191,7 @@ func Explore(cfg Config) *Result {
 	stubs := map[string]bool{}
 	notes := map[string]bool{}
 	vioSeen := map[string]bool{}
+	lastProgress := time.Now()
 
 	worker := func() {
 		solver, err := smt.Start(smt.Backends[cfg.Solver], cfg.TimeoutMS)
@@ -278,6 +279,10 @@ func Explore(cfg Config) *Result {
 			}
 			for _, alt := range ex.alts {
 				work = append(work, workItem{alt})
+			}
+			if time.Since(lastProgress) > 15*time.Second {
+				lastProgress = time.Now()
+				fmt.Fprintf(os.Stderr, "gosx: %s: %d paths, %d infeasible, %d queued, %.0fs\n", cfg.Harness, res.Paths, res.Infeasible, len(work), time.Since(start).Seconds())
 			}
 			if cfg.MaxPaths > 0 && res.Paths >= cfg.MaxPaths || !cfg.Deadline.IsZero() && time.Now().After(cfg.Deadline) {
 				stopped = true
